@@ -11,7 +11,7 @@ from harness import apr, asmfam
 
 def run(ctx) -> None:
     q = ctx.quick
-    fams = [("macros", 4 if q else 6), ("capture", 5 if q else 6), ("macro0", 5 if q else 6), ("splice", 6 if q else 7), ("splice2", 5 if q else 6), ("macroscope", 6 if q else 7), ("recur", 7 if q else 8), ("symparam", 5 if q else 6), ("spliceblk", 5 if q else 6), ("macrowidth", 5 if q else 6), ("codeprec", 4 if q else 5), ("spliceloop", 6 if q else 7)]
+    fams = [("macros", 4 if q else 5), ("capture", 5 if q else 6), ("macro0", 5 if q else 6), ("splice", 6 if q else 7), ("splice2", 5 if q else 6), ("macroscope", 6 if q else 7), ("recur", 7), ("symparam", 5 if q else 6), ("spliceblk", 5 if q else 6), ("macrowidth", 5 if q else 6), ("codeprec", 4 if q else 5), ("spliceloop", 6 if q else 7)]
     ctx.rule = ("programs = every program over the 'macros' (<= %d), 'capture' (<= %d), 'macro0' (<= %d), 'splice' (<= %d), 'splice2' (<= %d) 'macroscope' (<= %d) and 'recur' (<= %d: recursion ended by a condition on the parameter), 'symparam' (<= %d), 'spliceblk' (<= %d), 'macrowidth' (<= %d), 'codeprec' (<= %d) and 'spliceloop' (<= %d) alphabets of MC_Asm + "
                 "seeded macro-heavy APR trees; non-trivial = programs with at least one macro application" % tuple(L for _, L in fams))
     ctx.trusted = ["TLC 1.8", "spec/Asm.tla expansion (XStmt apply/splice/XArgs with callSite = TRUE)", "harness/apr.py renderer"]
